@@ -84,7 +84,7 @@ def new_connectivity(rng, mesh):
         b2 = rng.choice(unused) if unused and rng.random() < 0.7 else rng.choice(used)
         sw = {a: b2, b2: a}
         conns = [[sw.get(n, n) for n in c] for c in conns]
-    return {'kind': 'mod', 'op': 'set_conn', 'how': how,
+    return {'kind': 'mod', 'op': 'set_conn', 'how': how, 'inplace': rng.random() < 0.5,
             'rows': {str(e): c for (e, _), c in zip(rows, conns)}}
 
 
@@ -182,6 +182,18 @@ def graph_of(mesh, nodal, order1, elem_ids):
 
 def reach(adj, n_hop):
     n = len(adj)
+    if n > 40 or n_hop > 6:
+        import numpy as np
+        A = np.zeros((n, n), dtype=np.int64)
+        for i, s_ in enumerate(adj):
+            for j in s_:
+                A[i, j] = 1
+        cur = A.copy()
+        acc = A.copy()
+        for _ in range(max(n_hop, 1) - 1):
+            cur = ((cur @ A) > 0).astype(np.int64)      # entries <= n: exact
+            acc |= cur
+        return [set(np.nonzero(acc[i])[0].tolist()) for i in range(n)]
     out = []
     for i in range(n):
         cur = set(adj[i])
@@ -300,7 +312,7 @@ def oracle(mesh, q, r, elem_ids):
 # which of the two modelled behaviours (unchanged tree = False / repaired = True)
 # the implementation follows at the three places where the unchanged code
 # violates the property; decided by behaviour in evaluate()
-VARIANT = {'hop_zero_diag': False, 'e2v_strict': False, 'grad_total': False}
+VARIANT = {'hop_zero_diag': True, 'e2v_strict': True, 'grad_total': True}   # first guess: /repo >= cb6a4ac
 
 
 def variant_class(q):
@@ -359,6 +371,8 @@ def coq_check(ctx, cases, results, name):
     entries = []            # (case, [step indices], mesh)
     for c in cases:
         out[c['id']] = []
+        if c.get('oracle_only'):
+            continue
         cur, cur_mesh = [], None
         for qi, q in enumerate(c['queries']):
             if q['kind'] == 'mod':
@@ -430,7 +444,36 @@ def queries_for(rng, mesh, tier):
             qs.append({'kind': 'grad', 'nodal': nd, 'order1': o})
         qs.append({'kind': 'e2v', 'nodal': nd, 'self_loop': False})
     qs.append({'kind': 'e2v', 'nodal': rng.random() < 0.5, 'self_loop': True})
+    # the theorem is for every hop count: many hops (walk counts exceed 2^63)
+    if len(mesh['nodes']) <= 30:
+        qs.append({'kind': 'hop', 'nodal': rng.random() < 0.6,
+                   'n': rng.choice([6, 8, 12, 16, 20, 24, 32]),
+                   'self_loop': rng.random() < 0.5, 'order1': False})
+    # the flags spelled as 0/1, numpy bools, None
+    for q in qs:
+        if rng.random() < 0.25:
+            q['flag_style'] = rng.choice(['int', 'numpy', 'none'])
     return qs
+
+
+def big_hop_cases(rng, n_side=4, hops=(12, 16, 20, 32), n_cases=1):
+    """hex block large enough for walk counts to overflow int64; too big for the
+    in-Coq evaluation in the quick tier: the implementation is held against the
+    reachability oracle only (`oracle_only`)"""
+    out = []
+    for _ in range(n_cases):
+        b = gen.Builder()
+        gen.grid3d(b, rng, n_side, n_side, n_side, 'hex')
+        mesh = gen.label(b, rng, rng.choice(['seq', 'sparse']), n_unref=0,
+                         node_order=rng.choice(gen.ORDERS), elem_order=rng.choice(gen.ORDERS))
+        mesh['tags'] = {'kind': f'hex-block-{n_side}', 'ids': 'big', 'components': 1, 'unref': 0}
+        qs = [{'kind': 'inc', 'order1': False}]
+        for n in hops:
+            for nd in (True, False):
+                qs.append({'kind': 'hop', 'nodal': nd, 'n': n, 'self_loop': rng.random() < 0.5,
+                           'order1': False})
+        out.append({'mesh': mesh, 'queries': qs, 'oracle_only': True})
+    return out
 
 
 def malformed(rng, mesh):
@@ -450,6 +493,26 @@ def malformed(rng, mesh):
         qs = [{'kind': 'inc', 'order1': True}, {'kind': 'inc', 'order1': False}]
     m['tags'] = dict(m.get('tags', {}), malformed=kind)
     return m, qs
+
+
+# exact-body tie on calculate_n_hop_adj: the bodies this check was built against
+# (before and after /repo cb6a4ac).  Another body is NOT a violation by itself
+# (the correspondence and the oracle decide), it triggers the extended search
+# at sizes where integer walk counts overflow.
+NHOP_BODIES = {'0b1e0586b19c73cf25798565a42257ee0085e1540cf89848c7ebc960f9faa5a5',
+               '9e1b5eaed8287475aae355103f4260099c231d59ed637a34489bab3a4627687e'}
+
+
+def nhop_body_hash():
+    import ast
+    try:
+        src = (lib.REPO / 'femio' / 'graph_processor.py').read_text()
+        for n in ast.walk(ast.parse(src)):
+            if isinstance(n, ast.FunctionDef) and n.name == 'calculate_n_hop_adj':
+                return lib.sha(ast.unparse(n))
+    except (OSError, SyntaxError):
+        pass
+    return None
 
 
 def gen_cases(ctx):
@@ -479,10 +542,24 @@ def gen_cases(ctx):
             lead.append({'kind': 'e2v', 'nodal': nd, 'self_loop': False})
             lead.append({'kind': 'hop', 'nodal': nd, 'n': 1, 'self_loop': True, 'order1': False})
         cases.append({'id': len(cases), 'mesh': c['mesh'], 'queries': lead + qs, 'shared': True})
+    # many hops on a block where integer walk counts overflow (oracle only)
+    h = nhop_body_hash()
+    ctx.sources['graph_processor.py:calculate_n_hop_adj(ast)'] = h
+    known_body = h in NHOP_BODIES
+    ctx.notes['n_hop_body_known'] = known_body
+    big = big_hop_cases(ctx.rng, 4, (12, 16, 20, 32), 1 if ctx.tier == 'quick' else 3)
+    if not known_body:
+        ctx.notes['n_hop_extended_search'] = 'body of calculate_n_hop_adj changed: more sizes/hops'
+        big += big_hop_cases(ctx.rng, 4, (10, 14, 18, 24, 28, 40), 2)
+        big += big_hop_cases(ctx.rng, 5, (16, 24, 32, 48), 1)
+        big += big_hop_cases(ctx.rng, 3, (8, 16, 24, 32, 64), 2)
+    for c in big:
+        c['id'] = len(cases)
+        cases.append(c)
     # history stream: queries / in-place modification (connectivity assignment,
     # remove_useless_nodes) / the same queries again on ONE object; the model is
     # evaluated on the mesh as modified
-    base = [c for c in cases if not c.get('shared')]
+    base = [c for c in cases if not c.get('shared') and not c.get('oracle_only')]
     for c in base[1::4]:
         h = history_case(ctx.rng, c)
         h['id'] = len(cases)
@@ -530,7 +607,7 @@ def evaluate(ctx, cases, name):
     # re-evaluated with the other variant, which is adopted only when all of
     # them then agree (so a repaired tree passes, a third behaviour does not)
     def fails(cr, classes, sel=cases):
-        return [(c['id'], qi) for c in sel if not c.get('shared')
+        return [(c['id'], qi) for c in sel if not c.get('shared') and not c.get('oracle_only')
                 for qi in (cr.get(c['id']) or []) if variant_class(c['queries'][qi]) in classes]
 
     def retry(classes):
@@ -540,6 +617,8 @@ def evaluate(ctx, cases, name):
             VARIANT[k] = not VARIANT[k]
         sub, back = [], {}
         for c in cases:
+            if c.get('oracle_only'):
+                continue
             idx = [qi for qi, q in enumerate(c['queries']) if variant_class(q) in classes]
             if idx and corr.get(c['id']) is not None:
                 sub.append(dict({'id': c['id'], 'mesh': c['mesh'],
@@ -809,6 +888,10 @@ def main(ctx):
         ctx.count('components:' + str(tg.get('components')))
         ctx.count('unreferenced_nodes:' + str(tg.get('unref')))
         ctx.count('object:' + ('one-shared-for-the-sequence' if c.get('shared') else 'fresh-per-query'))
+        ctx.count('node_order:' + str(tg.get('node_order')))
+        ctx.count('elem_order:' + str(tg.get('elem_order')))
+        if c.get('oracle_only'):
+            ctx.count('tie:oracle-only (too large for in-Coq evaluation)')
         if tg.get('malformed'):
             ctx.count('malformed:' + tg['malformed'])
         if c.get('history'):
@@ -819,6 +902,10 @@ def main(ctx):
                 continue
             nq += 1
             ctx.count('query:' + q['kind'])
+            if q['kind'] == 'hop':
+                ctx.count('hops:' + ('1-4' if q['n'] <= 4 else '5-12' if q['n'] <= 12 else '13-64'))
+            if q.get('flag_style'):
+                ctx.count('flag_style:' + q['flag_style'])
             ctx.count('impl:' + ('raised ' + r['exc'] if 'exc' in r else 'matrix'))
             ctx.case([describe(mesh_at(c, qi)), strip(q), qi if c.get('shared') else 0],
                      nontrivial=bool(r.get('triples')),
